@@ -297,6 +297,8 @@ struct ScriptIo {
     // observations
     pending_reads: u64,
     short_writes: u64,
+    /// Pending results returned by this object (each one "registers" the caller's waker)
+    io_pendings: u64,
 }
 
 impl ScriptIo {
@@ -315,6 +317,7 @@ impl ScriptIo {
             eof_at: None,
             pending_reads: 0,
             short_writes: 0,
+            io_pendings: 0,
         }
     }
     fn next(script: &[Step], i: &mut usize) -> Step {
@@ -338,6 +341,7 @@ impl AsyncRead for ScriptIo {
         match ScriptIo::next(&this.rscript, &mut this.ri) {
             Step::Pending => {
                 this.pending_reads += 1;
+                this.io_pendings += 1;
                 Poll::Pending
             }
             Step::Err => Poll::Ready(Err(io::Error::new(io::ErrorKind::ConnectionReset, "scripted read error"))),
@@ -359,7 +363,10 @@ impl AsyncWrite for ScriptIo {
     fn poll_write(mut self: Pin<&mut Self>, _cx: &mut Context<'_>, buf: &[u8]) -> Poll<io::Result<usize>> {
         let this = &mut *self;
         match ScriptIo::next(&this.wscript, &mut this.wi) {
-            Step::Pending => Poll::Pending,
+            Step::Pending => {
+                this.io_pendings += 1;
+                Poll::Pending
+            }
             Step::Err => Poll::Ready(Err(io::Error::new(io::ErrorKind::BrokenPipe, "scripted write error"))),
             Step::Zero => Poll::Ready(Ok(0)),
             step => {
@@ -379,7 +386,10 @@ impl AsyncWrite for ScriptIo {
     fn poll_flush(mut self: Pin<&mut Self>, _cx: &mut Context<'_>) -> Poll<io::Result<()>> {
         let this = &mut *self;
         match ScriptIo::next(&this.fscript, &mut this.fi) {
-            Step::Pending => Poll::Pending,
+            Step::Pending => {
+                this.io_pendings += 1;
+                Poll::Pending
+            }
             Step::Err => Poll::Ready(Err(io::Error::new(io::ErrorKind::BrokenPipe, "scripted flush error"))),
             _ => {
                 this.flushed_at = Some(this.wire.len());
@@ -466,7 +476,13 @@ fn transport_case(ctx: &Ctx, idx: u64, r: &mut Rng, out: &mut Outcome) {
     let res = guarded(|| {
         let mut problems: Vec<(String, String)> = Vec::new();
         let mut obs: Vec<(&'static str, u64)> = Vec::new();
-        let mut cx = Context::from_waker(Waker::noop());
+        // wake-up discipline: a Pending result is only legitimate if somebody will wake the task,
+        // i.e. the I/O object returned Pending during that call (it holds the waker then) or the
+        // transport woke the task itself
+        let wakes = std::sync::Arc::new(WakeCount(std::sync::atomic::AtomicU64::new(0)));
+        let waker = Waker::from(wakes.clone());
+        let mut cx = Context::from_waker(&waker);
+        let wake_n = || wakes.0.load(std::sync::atomic::Ordering::SeqCst);
         // ---------------- sender ----------------
         let mut io = ScriptIo::new();
         io.wscript = wscript.clone();
@@ -487,7 +503,13 @@ fn transport_case(ctx: &Ctx, idx: u64, r: &mut Rng, out: &mut Outcome) {
             loop {
                 // bytes handed to the transport but not yet on the wire
                 let unsent = expected_wire.len() - io.borrow().wire.len();
-                match t.as_mut().send_poll_ready(&mut cx) {
+                let (p0, w0) = (io.borrow().io_pendings, wake_n());
+                let r = t.as_mut().send_poll_ready(&mut cx);
+                if r.is_pending() && io.borrow().io_pendings == p0 && wake_n() == w0 {
+                    problems.push(("tt-pending-without-wakeup:ready".into(), "send_poll_ready returned Pending although the I/O object never returned Pending during the call and nobody was woken".into()));
+                    break 'send;
+                }
+                match r {
                     Poll::Ready(Ok(())) => break,
                     Poll::Ready(Err(e)) => {
                         check_io_error(&e, inject_zero, inject_err, &mut problems, &mut obs);
@@ -515,7 +537,13 @@ fn transport_case(ctx: &Ctx, idx: u64, r: &mut Rng, out: &mut Outcome) {
             if (i + 1) % flush_every == 0 || i + 1 == msgs.len() {
                 let mut polls = 0;
                 loop {
-                    match t.as_mut().send_poll_flush(&mut cx) {
+                    let (p0, w0) = (io.borrow().io_pendings, wake_n());
+                    let r = t.as_mut().send_poll_flush(&mut cx);
+                    if r.is_pending() && io.borrow().io_pendings == p0 && wake_n() == w0 {
+                        problems.push(("tt-pending-without-wakeup:flush".into(), "send_poll_flush returned Pending although the I/O object never returned Pending during the call and nobody was woken".into()));
+                        break 'send;
+                    }
+                    match r {
                         Poll::Ready(Ok(())) => {
                             let io = io.borrow();
                             if io.wire != expected_wire {
@@ -568,7 +596,16 @@ fn transport_case(ctx: &Ctx, idx: u64, r: &mut Rng, out: &mut Outcome) {
         };
         let mut polls = 0;
         loop {
-            match t.as_mut().receive_poll(&mut cx) {
+            let (p0, w0) = (io.borrow().io_pendings, wake_n());
+            let r = t.as_mut().receive_poll(&mut cx);
+            if r.is_pending() && io.borrow().io_pendings == p0 && wake_n() == w0 {
+                problems.push(("tt-pending-without-wakeup:receive".into(), format!("receive_poll returned Pending after {} messages although the reader never returned Pending during the call and nobody was woken: the task would sleep forever", got)));
+                break;
+            }
+            if r.is_pending() {
+                obs.push(("tt_pending_results_justified", 1));
+            }
+            match r {
                 Poll::Ready(Ok(m)) => {
                     if got >= msgs.len() || m != msgs[got] {
                         problems.push(("tt-receive-differs".into(), format!("message {} differs or is extra", got)));
@@ -629,6 +666,14 @@ fn check_io_error(e: &TokioTransportError, inject_zero: bool, inject_err: bool, 
             k => problems.push(("tt-unexpected-error".into(), format!("{:?}", k))),
         },
         other => problems.push(("tt-unexpected-error".into(), format!("{:?}", other))),
+    }
+}
+
+struct WakeCount(std::sync::atomic::AtomicU64);
+
+impl std::task::Wake for WakeCount {
+    fn wake(self: std::sync::Arc<Self>) {
+        self.0.fetch_add(1, std::sync::atomic::Ordering::SeqCst);
     }
 }
 
@@ -751,7 +796,10 @@ fn buffered_case(ctx: &Ctx, idx: u64, r: &mut Rng, out: &mut Outcome) {
         st.borrow_mut().ready_script = ready_script.clone();
         st.borrow_mut().flush_script = flush_script.clone();
         st.borrow_mut().incoming = msgs.iter().cloned().collect();
-        let mut cx = Context::from_waker(Waker::noop());
+        let wakes = std::sync::Arc::new(WakeCount(std::sync::atomic::AtomicU64::new(0)));
+        let waker = Waker::from(wakes.clone());
+        let mut cx = Context::from_waker(&waker);
+        let wake_n = || wakes.0.load(std::sync::atomic::Ordering::SeqCst);
         let mut b = Box::pin(Buffered::new(ScriptTransport(st.clone())));
         let mut sent = 0usize;
         'outer: for (i, m) in msgs.iter().enumerate() {
@@ -767,7 +815,13 @@ fn buffered_case(ctx: &Ctx, idx: u64, r: &mut Rng, out: &mut Outcome) {
             if (i + 1) % flush_every == 0 || i + 1 == msgs.len() {
                 let mut polls = 0;
                 loop {
-                    match b.as_mut().send_poll_flush(&mut cx) {
+                    let (p0, w0) = (st.borrow().pending, wake_n());
+                    let r = b.as_mut().send_poll_flush(&mut cx);
+                    if r.is_pending() && st.borrow().pending == p0 && wake_n() == w0 {
+                        problems.push(("bf-pending-without-wakeup:flush".into(), "Buffered::send_poll_flush returned Pending although the inner transport never returned Pending during the call and nobody was woken".into()));
+                        break 'outer;
+                    }
+                    match r {
                         Poll::Ready(Ok(())) => {
                             let s = st.borrow();
                             if s.started.len() != sent || s.started[..] != msgs[..sent] {
